@@ -22,6 +22,7 @@ import DimModel.Lib.InterpLike
 import DimModel.Driver.ExtRed
 import DimModel.Driver.ExtCache
 import DimModel.Driver.ExtC14Ops
+import DimModel.Driver.ExtC14Ops3
 open Lean
 namespace DimModel.Driver
 open DimModel.Codec
@@ -506,7 +507,7 @@ def handle (op : String) (req : Json) : P (List (String × Json)) := do
       | "copy" => DSV.copyDs Cell.nan ds
       | "reindex_like" => DSV.reindexLikeDs Cell.fill ds tmpl
       | "interp_like" => DSV.interpLikeDs (fun a b w => Cell.lin a b w) ds tmpl Cell.fill Cell.fill2
-      | _ => match dsOpExt fn req with | .ok (some g) => g ds others | _ => .error .other
+      | _ => match dsOpExt3 fn req with | .ok (some g) => g ds others | _ => .error .other
     pure [("lib", encExcept encDs r)]
   | "redx" => handleRedX req
   | _ => match handleCache op req with | some r => r | none => throw s!"unknown op {op}"
